@@ -5,6 +5,7 @@ package leanhelix
 import (
 	"github.com/orbs-network/lean-helix-go/services/interfaces"
 	"github.com/orbs-network/lean-helix-go/services/rawmessagesfilter"
+	"github.com/orbs-network/lean-helix-go/services/termincommittee"
 )
 
 // Verification hooks (build tag "verif" only): synchronous, single-threaded entry points that run
@@ -40,8 +41,11 @@ func (lh *WorkerLoop) VerifFilter() *rawmessagesfilter.RawMessageFilter {
 	return lh.filter
 }
 
-func (lh *WorkerLoop) VerifInCommittee() bool {
-	return lh.leanHelixTerm != nil
+func (lh *WorkerLoop) VerifTerm() *termincommittee.TermInCommittee {
+	if lh.leanHelixTerm == nil {
+		return nil
+	}
+	return lh.leanHelixTerm.VerifTermInCommittee()
 }
 
 func (m *MainLoop) VerifWorker() *WorkerLoop {
